@@ -141,11 +141,21 @@ IndexExpect(args) ==
            c == IF Len(args) = 3 THEN args[3] ELSE Blank
        IN IF ~(IsIntV(r) \/ IsBlank(r)) \/ ~(IsIntV(c) \/ IsBlank(c)) THEN EAny
           ELSE IF Is1D(a)
-          THEN IF ~IsBlank(c) THEN EAny            \* orientation of a one-dimensional array is not fixed
-               ELSE IF IsBlank(r) THEN EAny
-               ELSE IF r.n >= 1 /\ r.n <= Len(a.a) THEN OfV(a.a[r.n])
-               ELSE IF r.n = 0 THEN EAlts(<<EAnyErr, EVal(a)>>)      \* 0: an error or the whole array, never one element
-               ELSE EAnyErr
+          THEN LET n == Len(a.a)
+                   (* one index: by position; 0: an error or the whole array, never one element *)
+                   ByPos(i) == IF i.n >= 1 /\ i.n <= n THEN OfV(a.a[i.n])
+                               ELSE IF i.n = 0 THEN EAlts(<<EAnyErr, EVal(a)>>) ELSE EAnyErr
+                   (* two indices: the orientation is not fixed, so the array may be read as a column (c is 0 or 1)  *)
+                   (* or as a row (r is 0 or 1); whatever the reading, the answer is that element (the whole array   *)
+                   (* for position 0) or an error - never anything else                                              *)
+                   Cand(i, other) == IF other.n \in {0, 1}
+                                     THEN (IF i.n >= 1 /\ i.n <= n THEN <<OfV(a.a[i.n])>>
+                                           ELSE IF i.n = 0 THEN <<EVal(a)>> ELSE <<>>)
+                                     ELSE <<>>
+               IN IF IsBlank(r) /\ IsBlank(c) THEN EAny
+                  ELSE IF IsBlank(c) THEN ByPos(r)
+                  ELSE IF IsBlank(r) THEN ByPos(c)
+                  ELSE EAlts(<<EAnyErr>> \o Cand(r, c) \o Cand(c, r))
           ELSE IF Is2D(a) /\ Rect(a)
           THEN LET nr == Len(a.a)
                    nc == Len(a.a[1].a)
